@@ -71,9 +71,11 @@ def run_one(k, cfg):
     spec = 'keep=check-sat,x;' + ';'.join(f'{kd}={KINDS_ALL[kd]}'
                                           for kd in kinds)
     opts = ['--strategy', strategy, '-j', str(jobs)]
-    limit = 0.3 if explicit else None
+    # (a mapping made 250 ms after the start needs a limit it can meet)
+    tl = 2.0 if ('mmap' in kinds or 'mmapfast' in kinds) else 0.3
+    limit = tl if explicit else None
     if explicit:
-        opts += ['--timeout', '0.3']
+        opts += ['--timeout', str(tl)]
     if 'alloc' in kinds or 'mmap' in kinds or 'mmapfast' in kinds:
         opts += ['--memout', '64']
     if cc:
@@ -161,7 +163,9 @@ def main():
         raise common.MachineryError('Exec.tla violates ' + str(res.violated))
     rep.add_tlc(res, 'MC_Exec.cfg')
     r = random.Random(common.seed() + 10)
-    subsets = [c for n in (1, 2, 3) for c in itertools.combinations(KINDS, n)]
+    # ("slow" overruns only the 0.3 s limit; the mapping kinds get 2 s)
+    subsets = [c for n in (1, 2, 3) for c in itertools.combinations(KINDS, n)
+               if not ('slow' in c and 'mmap' in c)]
     cfgs = []
     for i, ks in enumerate(subsets):
         for strategy in ('ddmin', 'hierarchical', 'hybrid'):
